@@ -311,3 +311,43 @@ Definition is_nonfail_trigger (e : event) : bool :=
 Definition chk_reports (pre : list event) (e : event) : bool :=
   match e with ERunReturn ResNil => existsb is_nonfail_trigger pre | _ => true end.
 Definition c04_reports (c : config) (t : list event) : bool := all_check chk_reports t.
+
+(* ---------------------------------------------------------------- C06 (a subscriber learns new entries) *)
+
+(* the events before / after the first one satisfying f *)
+Fixpoint split_at (f : event -> bool) (t : list event) : option (list event * list event) :=
+  match t with
+  | [] => None
+  | e :: t' => if f e then Some ([], t')
+               else match split_at f t' with Some (p, q) => Some (e :: p, q) | None => None end
+  end.
+
+Definition is_call (j : nat) (e : event) : bool :=
+  match e with ERunCall i => Nat.eqb i j | _ => false end.
+Definition is_recv (c : nat) (e : event) : bool :=
+  match e with ESubRecv c1 _ => Nat.eqb c1 c | _ => false end.
+Definition is_cancel (c : nat) (e : event) : bool :=
+  match e with ESubCancel c1 => Nat.eqb c1 c | _ => false end.
+Definition has_entry (j : nat) (m : list (option st)) : bool :=
+  match nth j m None with Some _ => true | None => false end.
+Definition is_recv_entry (c j : nat) (e : event) : bool :=
+  match e with ESubRecv c1 m => Nat.eqb c1 c && has_entry j m | _ => false end.
+
+(* subscriber c had taken a snapshot and was not cancelled when Stateable runnable j was started:
+   unless c took ten or more snapshots after that (its channel may have been full when startRunnable
+   broadcast), one of the snapshots it took afterwards has an entry for j *)
+Definition sub_entry_ok (c j : nat) (pre : list event) : bool :=
+  match split_at (is_call j) pre with
+  | Some (p, q) =>
+    negb (existsb (is_recv c) p) || existsb (is_cancel c) p
+    || existsb (is_recv_entry c j) q || Nat.leb 10 (count_if (is_recv c) q)
+  | None => true
+  end.
+
+(* checked when the consumer sees its channel closed (hence drained) *)
+Definition chk_sub_entry (cfg : config) (pre : list event) (e : event) : bool :=
+  match e with
+  | ESubClosed c => forallb (fun j => negb (stateable (spec cfg j)) || sub_entry_ok c j pre) (seq 0 (nrun cfg))
+  | _ => true
+  end.
+Definition c06_sub_entry (cfg : config) (t : list event) : bool := all_check (chk_sub_entry cfg) t.
